@@ -394,9 +394,11 @@ functions at a point, and PROVED for `polyOps` with `Poly.eval · pt` (JinnsProo
 statement about a residual is made on its value under an arbitrary such `ev`.
 
 `LawfulDeriv`: field-level laws of the derivations (linearity, Leibniz, `∂i 1 = 0`, `∂i x_j = δ_ij`,
-commuting partials).  They hold for differentiation of smooth functions; for the un-normalised list
-representation of `polyOps` they hold only up to `Poly.eval` (the list of monomials comes out in another
-order), so the statements using them are kept generic. -/
+commuting partials).  They hold for differentiation of smooth functions and for Mathlib's `MvPolynomial`
+(`mvLawful`, JinnsProofs/C02).  For the un-normalised list representation of `polyOps`, linearity and
+the commutation of partials hold as equalities of lists (`polyOps_dX_comm`), but Leibniz and
+`∂i x_j = δ_ij` hold only up to `Poly.eval` (the monomials come out in another order / with trailing zero
+exponents), so the statements that need them (the OU corollaries) are kept generic over the structure. -/
 
 structure EvalHom (ops : FieldOps F) (ev : F → Rat) : Prop where
   zero : ev ops.zero = 0
